@@ -12,6 +12,8 @@ fn main() {
     "o09_intern_across_collection" => intern_across_collection(n(2) != 0),
     "o05_4_marks_cleared" => collect_twice(0),
     "o05_4_temp_root_survives" => temp_root_survives(9),
+    "o05_5_inflight_obj_survives" => inflight_obj_survives(),
+    "o05_5_inflight_alloc_survives" => inflight_alloc_survives(),
     other => { eprintln!("unknown contract {other}"); std::process::exit(2) },
   };
   println!("contract {} on {:?}: {}", a[1], &a[2..], if ok { "HOLDS" } else { "VIOLATED" });
